@@ -132,17 +132,18 @@ func checkC08(c *h.Ctx, ec *ExecCase) {
 		// the context (context.Cause reports an error wrapping ErrVerbose here)
 		if s.Steps > 0 && (entry == "query" || entry == h.Entries[1+len(ec.Text)%4]) {
 			k := (len(ec.Text)*31 + len(ec.Doc)*17 + len(entry)) % (s.Steps + 1)
-			m := &h.CallMon{CancelAt: k, Cause: context.Canceled}
+			cause := []error{context.Canceled, context.DeadlineExceeded}[(len(ec.Text)+len(ec.Doc))%2]
+			m := &h.CallMon{CancelAt: k, Cause: cause}
 			o := h.CallMonitored(entry, ec.P, doc, so, m)
 			c.Eval(1)
 			switch {
 			case o.Class == h.Panic:
-			case o.Err == nil || !errors.Is(o.Err, exec.ErrExecution) || !errors.Is(o.Err, context.Canceled) || errors.Is(o.Err, exec.ErrVerbose):
+			case o.Err == nil || !errors.Is(o.Err, exec.ErrExecution) || !errors.Is(o.Err, cause) || errors.Is(o.Err, exec.ErrVerbose):
 				ccs := cs
 				ccs.Silent = true
 				ccs.Entry = entry
 				ccs.Extra = map[string]string{"cancel-at-step": fmt.Sprint(k)}
-				c.Violate("hard.cancel", feat("at", fmt.Sprint(k > 0)), fmt.Sprintf("cancelled at step %d of %d under WithSilent: %s; want an error wrapping ErrExecution and context.Canceled, not ErrVerbose", k, s.Steps, o.Summary()), ccs)
+				c.Violate("hard.cancel", feat("at", fmt.Sprint(k > 0)), fmt.Sprintf("cancelled at step %d of %d under WithSilent: %s; want an error wrapping ErrExecution and %v, not ErrVerbose", k, s.Steps, o.Summary(), cause), ccs)
 			default:
 				c.Held("hard.cancel")
 			}
